@@ -362,3 +362,7 @@ def run(ck, F, tier):
     from . import c06
     c06.run(Scoped(ck, 'C06.'), F, tier)
     c14.a_who_moves(s14, F); c14.g_vlc(s14, F); c14.h_msb_first(s14, F); c14.w_width_prologue(s14, F)
+    c14.u_umv_code(s14, F)        # standard mode with unrestricted vectors: the Table D.3 code of a vector component
+    # .. which is only the code the macroblock layer reads if decode_macroblock is handed the options in force for THIS picture (and its header): C02's rule D
+    from . import c02
+    c02.rule_d(Scoped(ck, 'C02.'), F)
